@@ -5,6 +5,7 @@ import (
 	"errors"
 	"io"
 	"sync"
+	"sync/atomic"
 	"time"
 
 	"github.com/rs/zerolog/log"
@@ -52,6 +53,10 @@ type clientStream struct {
 	}
 
 	teardown func(bool)
+
+	// aborted is set when SendMsg or RecvMsg give the stream up themselves (a
+	// message that cannot be encoded or decoded, a failed transport write).
+	aborted atomic.Bool
 
 	// sendMu serialises the caller's writes (SendMsg, CloseSend) with the reset
 	// written on teardown, so that the reset is the last envelope the client
@@ -213,6 +218,13 @@ func (wcs *clientStream) Context() context.Context {
 	return wcs.ctx
 }
 
+// abort ends a stream that SendMsg or RecvMsg can no longer use. The read loop,
+// woken by the teardown, resets the stream towards the server.
+func (cs *clientStream) abort() {
+	cs.aborted.Store(true)
+	cs.teardown(false)
+}
+
 // SendMsg is generally called by generated code. On error, SendMsg aborts
 // the stream. If the error was generated by the client, the status is
 // returned directly; otherwise, io.EOF is returned and the status of
@@ -239,7 +251,7 @@ func (cs *clientStream) SendMsg(m interface{}) error {
 
 	body, err := cs.codec.Marshal(m)
 	if err != nil {
-		cs.teardown(false)
+		cs.abort()
 		return err
 	}
 	rpc := goatorepo.Rpc{
@@ -267,7 +279,7 @@ func (cs *clientStream) SendMsg(m interface{}) error {
 		if done, rErr := cs.readErrorIfDone(); done {
 			return rErr
 		}
-		cs.teardown(false)
+		cs.abort()
 		return err
 	}
 
@@ -322,7 +334,7 @@ func (cs *clientStream) RecvMsg(m interface{}) error {
 			// Any error other than io.EOF aborts the stream (see above). Without
 			// this the caller stops receiving while the stream stays registered,
 			// and the responses still arriving for it block the connection.
-			cs.teardown(false)
+			cs.abort()
 			return status.Errorf(codes.Internal, "failed to unmarshal response: %v", err)
 		}
 		for _, sh := range cs.statsHandlers {
@@ -354,7 +366,10 @@ func (cs *clientStream) readLoop() error {
 		defer cs.protected.Unlock()
 
 		close(cs.rCh)
-		sendRst := trailer == nil && cs.ctx.Err() != nil
+		// The stream ended without the server's trailer because this side gave
+		// it up (context, or a local abort - whose teardown may wake this loop
+		// before it has cancelled the context): tell the server.
+		sendRst := trailer == nil && (cs.ctx.Err() != nil || cs.aborted.Load())
 		cs.teardown(sendRst)
 
 		cs.protected.done = true
